@@ -17,7 +17,7 @@ def gen(c):
 def run(c):
     c.rule = ("per case index one of: ck (op sequences on a real ChunkedStorage2: read/next/reset/start/item/flush/fin, injected write "
               "failures, re-opened truncated or bit-flipped copies, sampled damage probes), ckx (small multi-chunk file + every truncation "
-              "offset and every single-bit flip; quick tier: every 3rd offset / 17th bit), mc (op sequences on a real MappingsCache: "
+              "offset and every single-bit flip; quick tier: every 2nd offset / 5th bit), mc (op sequences on a real MappingsCache: "
               "add/get/ttl/set/stats/save/reload full|trunc|flip/probe, deterministic and production sort mode, testMode on/off), mcx (small "
               "saved cache file + every truncation/bit flip loaded into a throw-away cache), raw (crafted hash-valid files with malformed item "
               "streams), bigck/bigmc (> ChunkSize/2 of data). non-trivial = reached eviction / TTL removal / a damaged re-open or reload / a "
@@ -34,7 +34,7 @@ def run(c):
     c.prove("SH.Props.C21", extra_files=["SH/Model/Chunked.lean", "SH/Model/MapCache.lean"])
     drv = c.driver(DRIVER)
     if binary and drv:
-        rc, out = c.go_run(binary, [f"-n={c.n(400, 3000)}"], timeout=1500)
+        rc, out = c.go_run(binary, [f"-n={c.n(300, 4000)}"], timeout=1500)
         c.harness_ok(rc, out, "verif-c21")
         c.correspond(out, drv)
 
@@ -42,7 +42,7 @@ def run(c):
         if not binary:
             return
         for k in range(1, 6):
-            rc, out = c.go_run(binary, [f"-n={c.n(2000, 6000)}", f"-seed={c.seed + 1000 * k}"], timeout=1500)
+            rc, out = c.go_run(binary, [f"-n={c.n(1500, 3000)}", f"-seed={c.seed + 1000 * k}"], timeout=1500)
             c.collect(out, label="")
             if c.oracle:
                 return
@@ -53,7 +53,26 @@ META = {
     "level": "proof",
     "technique": "Lean 4 theorems over executable models of the chunk file format and of the mapping cache (induction over chunk lists and over op sequences; "
                  "hash in reduction form) + op-by-op differential correspondence with the real ChunkedStorage2 / MappingsCache incl. exhaustive truncation and bit-flip slices",
-    "text": "",
-    "note": "",
+    "text": ("Kernel-checked theorems, for every hash function H with 16-byte results: a chunk file written by the writer reads back as exactly the "
+             "saved chunks (read_write_roundtrip); cut at ANY offset it yields a prefix of the saved chunks, all intact, and a clean end only at a chunk "
+             "boundary (truncated_gives_prefix); any corruption of chunk j — in particular any single changed byte, hence every bit flip — yields exactly the "
+             "first j chunks plus an error unless H maps the damaged bytes to the stored hash (corrupt_detected / byte_change_detected, reduction form, "
+             "accepts_iff). For the mapping cache, by induction over ALL sequences of add/get/TTL-evict/resize/stats/save/restart ops, all eviction "
+             "candidate lists, visit orders, write orders and all damage functions applied to the file: one entry per string and sumSize = Σ element "
+             "sizes, sumTS = Σ access times (accounting_exact, sums_never_negative); AddValues never grows the cache past max(maxSize, size before) and "
+             "a cache within its limit stays within it (addValues_size_bound, size_never_exceeds); every cached / returned value is non-marker, for a "
+             "non-empty string, and was given to AddValues for exactly that string (cache_values_are_added, get_returns_added_value); Save writes a "
+             "well-formed encoding of the map in any enumeration order (save_writes_encoding), a restart from it loads the same mapping and sums "
+             "(save_then_reload_same), a restart from any truncation loads only whole saved entries (load_truncated, save_then_truncated_reload_subset). "
+             "The models are tied to the code by replaying every generated op on the real ChunkedStorage2 / MappingsCache and on the compiled Lean model "
+             "and diffing state digests after every op, incl. every truncation offset and every single-bit flip of small saved files (thorough tier)."),
+    "note": ("Trusted: Lean kernel; the correspondence on generated op sequences; xxh3 as an uninterpreted function (corruption detection is proved only in reduction "
+             "form: it fails exactly on a HashCoincidence); Go map order, sort tie order and Save order are observed inputs whose legality the model checks "
+             "(legalCands/legalRemoved are executable predicates, not proved complete); locks (one call = one step), accessTSGran = 1, no int64 overflow, items "
+             "< ChunkSize/2. The value theorem takes the hypothesis ReloadsGood for restarts; it is discharged for restarts from a just-saved file cut anywhere "
+             "(restart_after_save_good) and, via corrupt_detected, for corrupted files modulo a hash coincidence, but the composition over arbitrary interleavings of "
+             "saves and repeated damaged restarts is not stated as one closed theorem. load does not enforce maxSize (a file saved under a larger limit is loaded whole; "
+             "the cache then shrinks by the 1/1024 rule) — the size theorem is therefore about AddValues and constant limits. Defect found and fixed in /repo "
+             "(9b6d1e49): the same new string twice in one AddValues call double-counted sumSize/sumTS; kept as Variant.dupAdd with theorem dupAdd_breaks_accounting."),
     "design_ref": "DESIGN.md §6 C21",
 }
